@@ -237,14 +237,16 @@ PROPS = {
         "claim": ("Generated topologies (2-5 peers: eBGP incl. two in one AS, iBGP non-client, RR client, second session to one "
                   "router-id; ADD-PATH send-max 0/1/2 and receive on/off) and histories of 3-40 operations over a pool of 6 "
                   "IPv4/IPv6 prefixes (announce / implicit replace with six attribute variants incl. ones that hit loop "
-                  "prevention / withdraw / bursts / session close and re-establishment / peer deletion / API add and delete) run "
-                  "against a real BgpServer in virtual time. After every operation, at quiescence, every established peer's "
+                  "prevention / withdraw / bursts / session close and re-establishment / peer deletion / API add and delete by "
+                  "attributes or UUID / racing operations of two peers, a handshake or a ROUTE-REFRESH racing an update, with "
+                  "seed-steered yield points / twin routes: a second peer relays a route attribute for attribute / a flood "
+                  "of 850-1450 host routes sharing one attribute set followed by a new session, so that UPDATEs are filled "
+                  "to the size limit) run against a real BgpServer in virtual time. After every operation, at quiescence, every established peer's "
                   "wire view (all UPDATE bytes of its session applied in order) must equal the reference export of the current "
                   "best path of each destination (ADD-PATH: every held path is a current exportable one, count = min(send-max, "
                   "exportable)); routes are identified by unique community tags."),
-        "note": ("Best-path choice itself is taken from ListPath (decided by C03); interleavings are those of sequential "
-                 "operations and bursts written back to back (no yield-point hook yet); route-server clients are not in the "
-                 "topologies."),
+        "note": ("Best-path choice itself is taken from ListPath (decided by C03); route-server clients and confederations "
+                 "are not in the topologies (C09 has them)."),
         "technique": "model-based property testing (rapid) of operation histories in virtual time; tagged routes + reference export function as oracle",
         "rule": ("non-trivial when >=2 peers are configured and the history contains a withdraw, a session loss or a replacement "
                  "after the third operation; distinct by case hash"),
